@@ -13,6 +13,7 @@ import (
 func init() {
 	register(&Rule{ID: "C19.EQ", Min: 2, Doc: "structural equality of container values compares the sizes of both sides (symmetric)", Run: runC19Eq})
 	register(&Rule{ID: "C19.EXPR", Min: 4, Doc: "values written as expressions are never the reason for a duplicate/exclude report", Run: runC19Expr})
+	register(&Rule{ID: "C19.CAND", Min: 4, Doc: "candidates are row values plus include values not structurally equal to one present; exclude values are matched candidate-first", Run: runC19Cand})
 	register(&Rule{ID: "C06.ANY", Min: 15, Doc: "wherever a type test can lead to a diagnostic, `any` is accepted without one", Run: runC06Any})
 	register(&Rule{ID: "C06.ASSIGN", Min: 7, Doc: "every Assignable accepts `any`; every Merge falls back to `any`", Run: runC06Assign})
 	register(&Rule{ID: "C06.OPEN", Min: 4, Doc: "an undefined property is only reported for a strict object", Run: runC06Open})
@@ -911,4 +912,175 @@ func flagDiagValue(fn *ssa.Function, phi *ssa.Phi, leads func(*ssa.BasicBlock) b
 		return v, true
 	}
 	return false, false
+}
+
+// ---- C19.CAND ----
+
+// The candidate values of a matrix key are the row values plus the include assignments that are not structurally equal to a
+// value already present; an exclude value is compared candidate-first with the subset test; an unknown key is reported iff
+// the key has no candidates.
+func runC19Cand(c *Ctx) {
+	p := c.P
+	fn := p.Method("RuleMatrix", "checkExclude")
+	if fn == nil {
+		c.anchorMissing("(*RuleMatrix).checkExclude")
+		return
+	}
+	// the candidate table: the map updated with Matrix.Rows keys
+	var rows ssa.Value
+	eachInstr(fn, func(_ *ssa.BasicBlock, _ int, in ssa.Instruction) {
+		if mu, ok := in.(*ssa.MapUpdate); ok {
+			if rf, idx := rangePart(mu.Key); rf == "Matrix.Rows" && idx == 1 {
+				if f, _ := fieldLoad(mu.Value); f == "MatrixRow.Values" {
+					rows = mu.Map
+					// only for rows without an expression
+					okGuard := false
+					for ifi, outcome := range controllingConds(mu.Block()) {
+						if v, nilSucc, ok := nilTest(ifi); ok {
+							if f, _ := fieldLoad(v); f == "MatrixRow.Expression" && (nilSucc == 0) == outcome {
+								okGuard = true
+							}
+						}
+					}
+					if okGuard {
+						c.ok("(*RuleMatrix).checkExclude|row values are candidates", mu.Pos(), "rows[key] = literal values, for rows that are not an expression")
+					} else {
+						c.bad("(*RuleMatrix).checkExclude|row values are candidates", mu.Pos(), "row values are entered without testing that the row is literal")
+					}
+				}
+			}
+		}
+	})
+	if rows == nil {
+		c.bad("(*RuleMatrix).checkExclude|row values are candidates", fn.Pos(), "the candidate table is not filled from the matrix rows")
+		return
+	}
+	// include: the append of an assignment's value
+	var apd *ssa.Call
+	eachInstr(fn, func(_ *ssa.BasicBlock, _ int, in ssa.Instruction) {
+		call, ok := in.(*ssa.Call)
+		if !ok {
+			return
+		}
+		if bi, ok := call.Call.Value.(*ssa.Builtin); !ok || bi.Name() != "append" {
+			return
+		}
+		lk, ok := call.Call.Args[0].(*ssa.Lookup)
+		if !ok || lk.X != rows {
+			return
+		}
+		if rf, idx := rangePart(lk.Index); rf == "MatrixCombination.Assigns" && idx == 1 {
+			apd = call
+		}
+	})
+	if apd == nil {
+		c.bad("(*RuleMatrix).checkExclude|include values are candidates", fn.Pos(), "include assignments are not appended to the candidates of their key")
+	} else {
+		// the loop over the assignments of one include entry
+		var hdr *ssa.BasicBlock
+		if lk, ok := apd.Call.Args[0].(*ssa.Lookup); ok {
+			if ex, ok := lk.Index.(*ssa.Extract); ok {
+				hdr = ex.Tuple.(*ssa.Next).Block()
+			}
+		}
+		fromHdr := reachableBlocks([]*ssa.BasicBlock{hdr}, nil)
+		var bad []string
+		nEq := 0
+		for _, b := range fn.Blocks {
+			if !fromHdr[b] || !reachableBlocks(b.Succs, nil)[hdr] {
+				continue
+			}
+			// only blocks that can still reach the append or skip it (inside the loop)
+			ifi, ok := b.Instrs[len(b.Instrs)-1].(*ssa.If)
+			if !ok {
+				continue
+			}
+			// restrict to the include loop: the block is dominated by the header of this loop
+			if !hdr.Dominates(b) {
+				continue
+			}
+			switch cnd := ifi.Cond.(type) {
+			case *ssa.Extract:
+				if _, ok := cnd.Tuple.(*ssa.Next); ok {
+					continue
+				}
+				if lk, ok := cnd.Tuple.(*ssa.Lookup); ok {
+					if _, isMake := lk.X.(*ssa.MakeMap); isMake {
+						continue // the set of keys whose row is an expression
+					}
+				}
+				bad = append(bad, "a test at "+p.Pos(ifi.Pos()))
+			case *ssa.BinOp:
+				if isRangeIndexCond(cnd) {
+					continue
+				}
+				bad = append(bad, "a comparison at "+p.Pos(cnd.Pos()))
+			case *ssa.Call:
+				if cnd.Call.IsInvoke() && cnd.Call.Method.Name() == "Equals" {
+					if f, _ := fieldLoad(cnd.Call.Args[0]); f == "MatrixAssign.Value" {
+						nEq++
+						continue
+					}
+				}
+				bad = append(bad, describeCall(cnd)+" at "+p.Pos(cnd.Pos()))
+			default:
+				bad = append(bad, "a condition at "+p.Pos(ifi.Pos()))
+			}
+		}
+		sort.Strings(bad)
+		switch {
+		case len(bad) > 0:
+			c.bad("(*RuleMatrix).checkExclude|include values are candidates", apd.Pos(), "an include value is left out of the candidates for a reason other than being structurally equal to a present value or belonging to an expression row: "+strings.Join(bad, "; "))
+		case nEq == 0:
+			c.bad("(*RuleMatrix).checkExclude|include values are candidates", apd.Pos(), "no structural equality test before adding an include value")
+		default:
+			c.ok("(*RuleMatrix).checkExclude|include values are candidates", apd.Pos(), "appended unless Equals() an existing candidate or the row is an expression")
+		}
+	}
+	// exclude: subset test candidate-first
+	nSub := 0
+	for _, call := range findCalls(fn, "isYAMLValueSubset") {
+		nSub++
+		a := call.Common().Args
+		f1, _ := fieldLoad(a[1])
+		fromRow := false
+		if ld, ok := a[0].(*ssa.UnOp); ok {
+			if ia, ok := ld.X.(*ssa.IndexAddr); ok {
+				if ex, ok := ia.X.(*ssa.Extract); ok {
+					if lk, ok := ex.Tuple.(*ssa.Lookup); ok && lk.X == rows {
+						fromRow = true
+					}
+				}
+				if lk, ok := ia.X.(*ssa.Lookup); ok && lk.X == rows {
+					fromRow = true
+				}
+			}
+		}
+		if fromRow && f1 == "MatrixAssign.Value" {
+			c.ok("(*RuleMatrix).checkExclude|exclude value against candidates", call.Pos(), "isYAMLValueSubset(candidate, exclude value)")
+		} else {
+			c.bad("(*RuleMatrix).checkExclude|exclude value against candidates", call.Pos(), "the subset test is not applied as (candidate, exclude value)")
+		}
+	}
+	if nSub == 0 {
+		c.bad("(*RuleMatrix).checkExclude|exclude value against candidates", fn.Pos(), "exclude values are not matched with the subset test")
+	}
+	// unknown key
+	okUnknown := false
+	for _, call := range findCalls(fn, "(*RuleBase).Errorf") {
+		for ifi, outcome := range controllingConds(call.Block()) {
+			if ex, ok := ifi.Cond.(*ssa.Extract); ok && ex.Index == 1 && !outcome {
+				if lk, ok := ex.Tuple.(*ssa.Lookup); ok && lk.X == rows {
+					if f, _ := fieldLoad(call.Common().Args[1]); f == "String.Pos" {
+						okUnknown = true
+					}
+				}
+			}
+		}
+	}
+	if okUnknown {
+		c.ok("(*RuleMatrix).checkExclude|unknown key", fn.Pos(), "reported at the key iff the key has no candidates")
+	} else {
+		c.bad("(*RuleMatrix).checkExclude|unknown key", fn.Pos(), "an exclude key without candidates is not reported at the key")
+	}
 }
